@@ -14,6 +14,8 @@ import (
 	"sort"
 	"strings"
 	"testing"
+	"testing/synctest"
+	"time"
 
 	"github.com/KafScale/platform/pkg/storage"
 )
@@ -75,21 +77,49 @@ func vdContent(kind, k string, n int) []byte {
 	return out
 }
 
-// vdBackend is a fake bucket with S3 range semantics (same as storage.MemoryS3Client).
+// vdBackend is a fake bucket with S3 range semantics (same as storage.MemoryS3Client).  It honours the
+// context it is handed (a call on a done context fails with the context error) and has a per-object
+// failure mode: "failing" (generic error), "timeout" / "canceled" (the bucket's own deadline- / cancel-class
+// error while the caller's context is alive), "stalled" (blocks until the context it was handed is done).
 type vdBackend struct {
 	name    string
 	seg     map[string][]byte
 	idx     map[string][]byte
 	failAll bool
-	failKey map[string]bool
+	mode    map[string]string
 	log     *[]vdCall
 }
 
 func newVdBackend(name string, log *[]vdCall) *vdBackend {
-	return &vdBackend{name: name, seg: map[string][]byte{}, idx: map[string][]byte{}, failKey: map[string]bool{}, log: log}
+	return &vdBackend{name: name, seg: map[string][]byte{}, idx: map[string][]byte{}, mode: map[string]string{}, log: log}
 }
 
 var errVdDown = errors.New("backend unavailable")
+
+// vdCallerTimeout is the deadline every client call is made with (virtual time under testing/synctest).
+const vdCallerTimeout = 10 * time.Second
+
+// gate is what a backend does before looking at its data: context check, outage, per-object failure mode.
+func (b *vdBackend) gate(ctx context.Context, key string) error {
+	if err := ctx.Err(); err != nil {
+		return err
+	}
+	if b.failAll {
+		return errVdDown
+	}
+	switch b.mode[key] {
+	case "failing":
+		return errVdDown
+	case "timeout":
+		return fmt.Errorf("replica read %s: %w", key, context.DeadlineExceeded)
+	case "canceled":
+		return fmt.Errorf("replica read %s: %w", key, context.Canceled)
+	case "stalled":
+		<-ctx.Done()
+		return ctx.Err()
+	}
+	return nil
+}
 
 func (b *vdBackend) rec(op, key string, rng *storage.ByteRange) {
 	c := vdCall{B: b.name, Op: op, K: vdModelKey(key), Rng: []int64{}}
@@ -99,7 +129,7 @@ func (b *vdBackend) rec(op, key string, rng *storage.ByteRange) {
 	*b.log = append(*b.log, c)
 }
 
-func (b *vdBackend) down(key string) bool { return b.failAll || b.failKey[key] }
+func (b *vdBackend) down(key string) bool { return b.failAll || b.mode[key] != "" }
 
 func vdSlice(data []byte, rng *storage.ByteRange) ([]byte, error) {
 	if rng == nil {
@@ -156,8 +186,8 @@ func (b *vdBackend) peekList(prefix string) ([]storage.S3Object, error) {
 
 func (b *vdBackend) UploadSegment(ctx context.Context, key string, body []byte) error {
 	b.rec("UploadSegment", key, nil)
-	if b.down(key) {
-		return errVdDown
+	if err := b.gate(ctx, key); err != nil {
+		return err
 	}
 	b.seg[key] = append([]byte(nil), body...)
 	return nil
@@ -165,8 +195,8 @@ func (b *vdBackend) UploadSegment(ctx context.Context, key string, body []byte) 
 
 func (b *vdBackend) UploadIndex(ctx context.Context, key string, body []byte) error {
 	b.rec("UploadIndex", key, nil)
-	if b.down(key) {
-		return errVdDown
+	if err := b.gate(ctx, key); err != nil {
+		return err
 	}
 	b.idx[key] = append([]byte(nil), body...)
 	return nil
@@ -174,8 +204,8 @@ func (b *vdBackend) UploadIndex(ctx context.Context, key string, body []byte) er
 
 func (b *vdBackend) DeleteSegment(ctx context.Context, key string) error {
 	b.rec("DeleteSegment", key, nil)
-	if b.down(key) {
-		return errVdDown
+	if err := b.gate(ctx, key); err != nil {
+		return err
 	}
 	delete(b.seg, key)
 	return nil
@@ -183,8 +213,8 @@ func (b *vdBackend) DeleteSegment(ctx context.Context, key string) error {
 
 func (b *vdBackend) DeleteIndex(ctx context.Context, key string) error {
 	b.rec("DeleteIndex", key, nil)
-	if b.down(key) {
-		return errVdDown
+	if err := b.gate(ctx, key); err != nil {
+		return err
 	}
 	delete(b.idx, key)
 	return nil
@@ -192,21 +222,33 @@ func (b *vdBackend) DeleteIndex(ctx context.Context, key string) error {
 
 func (b *vdBackend) DownloadSegment(ctx context.Context, key string, rng *storage.ByteRange) ([]byte, error) {
 	b.rec("DownloadSegment", key, rng)
+	if err := b.gate(ctx, key); err != nil {
+		return nil, err
+	}
 	return b.peekSeg(key, rng)
 }
 
 func (b *vdBackend) DownloadIndex(ctx context.Context, key string) ([]byte, error) {
 	b.rec("DownloadIndex", key, nil)
+	if err := b.gate(ctx, key); err != nil {
+		return nil, err
+	}
 	return b.peekIdx(key)
 }
 
 func (b *vdBackend) ListSegments(ctx context.Context, prefix string) ([]storage.S3Object, error) {
 	b.rec("ListSegments", prefix, nil)
+	if err := ctx.Err(); err != nil {
+		return nil, err
+	}
 	return b.peekList(prefix)
 }
 
 func (b *vdBackend) EnsureBucket(ctx context.Context) error {
 	b.rec("EnsureBucket", "", nil)
+	if err := ctx.Err(); err != nil {
+		return err
+	}
 	if b.failAll {
 		return errVdDown
 	}
@@ -252,7 +294,6 @@ func TestVerifDualS3Replay(t *testing.T) {
 		w.Write(b)
 		w.WriteByte('\n')
 	}
-	ctx := context.Background()
 	sc := bufio.NewScanner(f)
 	sc.Buffer(make([]byte, 1<<20), 1<<26)
 	n := 0
@@ -261,6 +302,15 @@ func TestVerifDualS3Replay(t *testing.T) {
 		if err := json.Unmarshal(sc.Bytes(), &s); err != nil {
 			t.Fatal(err)
 		}
+		idx := n
+		synctest.Test(t, func(t *testing.T) { vdRun(t, idx, s, emit) })
+		n++
+	}
+	t.Logf("replayed %d schedules", n)
+}
+
+func vdRun(t *testing.T, n int, s vdSched, emit func(map[string]any)) {
+	{
 		var calls []vdCall
 		prim, repl := newVdBackend("P", &calls), newVdBackend("R", &calls)
 		client := newDualS3Client(prim, repl) // the real constructor: (write, read)
@@ -284,8 +334,8 @@ func TestVerifDualS3Replay(t *testing.T) {
 					if kind == "idx" {
 						m = repl.idx
 					}
-					if repl.failKey[key] {
-						st = "failing"
+					if repl.mode[key] != "" {
+						st = repl.mode[key]
 					} else if _, ok := m[key]; ok {
 						st = "present"
 					}
@@ -304,6 +354,8 @@ func TestVerifDualS3Replay(t *testing.T) {
 				rngArr = st.Rng
 			}
 			line := map[string]any{"ev": st.A, "k": st.K, "rng": rngArr}
+			// every client call is made with a caller deadline; alive = the caller's context outlived the call
+			ctx, cancel := context.WithTimeout(context.Background(), vdCallerTimeout)
 			noRes := map[string]any{"ok": false, "bytes": []int{}}
 			switch st.A {
 			case "SetRep":
@@ -314,13 +366,15 @@ func TestVerifDualS3Replay(t *testing.T) {
 				}
 				switch st.S {
 				case "present":
-					repl.failKey[key] = false
+					repl.mode[key] = ""
 					m[key] = vdContent(st.Kind, st.K, s.Len)
 				case "absent":
-					repl.failKey[key] = false
+					repl.mode[key] = ""
 					delete(m, key)
-				case "failing":
-					repl.failKey[key] = true
+				case "failing", "timeout", "canceled", "stalled":
+					repl.mode[key] = st.S
+				default:
+					t.Fatalf("unknown replica state %q", st.S)
 				}
 				line["kind"], line["s"] = st.Kind, st.S
 			case "SetPrimFail":
@@ -383,11 +437,11 @@ func TestVerifDualS3Replay(t *testing.T) {
 			default:
 				t.Fatalf("unknown step %q", st.A)
 			}
+			line["alive"] = ctx.Err() == nil
+			cancel()
 			line["calls"] = append([]vdCall{}, calls...)
 			line["st"] = project()
 			emit(line)
 		}
-		n++
 	}
-	t.Logf("replayed %d schedules", n)
 }
